@@ -240,18 +240,56 @@ fn load_err_class(e: &norad::error::FontLoadError) -> String {
     }
 }
 
-pub fn observe_load(c: &Case, dir: &Path) -> String {
-    write_tree(dir, c);
-    let r = guarded(|| Font::load(dir));
-    let s = match r {
+fn load_outcome(r: Result<Result<Font, norad::error::FontLoadError>, String>) -> String {
+    match r {
         Err(_) => "panic".to_string(),
         Ok(Err(e)) => format!("err {}", load_err_class(&e)),
         Ok(Ok(f)) => format!("ok {} {}", dump_groups(&f), dump_kerning(&f)),
-    };
-    rm_rf(dir);
-    s
+    }
 }
 
+/// three entry points, separated by `||`: `Font::load`, `Font::load_requested_data` with everything
+/// requested, `Font::load_requested_data` with only groups and kerning requested (no layers: the glyph
+/// set of the conversion is empty)
+pub fn observe_load(c: &Case, dir: &Path) -> String {
+    observe_load_eps(c, dir, true)
+}
+
+/// `all_entry_points = false`: only `Font::load` (one segment)
+pub fn observe_load_eps(c: &Case, dir: &Path, all_entry_points: bool) -> String {
+    use norad::DataRequest;
+    write_tree(dir, c);
+    let s1 = load_outcome(guarded(|| Font::load(dir)));
+    if !all_entry_points {
+        rm_rf(dir);
+        return s1;
+    }
+    let s2 = load_outcome(guarded(|| Font::load_requested_data(dir, DataRequest::default())));
+    let s3 = load_outcome(guarded(|| {
+        Font::load_requested_data(dir, DataRequest::none().groups(true).kerning(true))
+    }));
+    rm_rf(dir);
+    format!("{} || {} || {}", s1, s2, s3)
+}
+
+fn save_outcome(r: Result<Result<(), norad::error::FontWriteError>, String>, g: &Groups, dir: &Path) -> String {
+    match r {
+        Err(_) => "panic".to_string(),
+        Ok(Err(norad::error::FontWriteError::InvalidGroups(_))) => "err InvalidGroups".to_string(),
+        Ok(Err(e)) => format!("err other:{}", format!("{:?}", e).split(|c: char| !c.is_alphanumeric()).next().unwrap_or("?")),
+        Ok(Ok(())) => {
+            // what was written must load again with the same groups
+            match guarded(|| Font::load(dir)) {
+                Ok(Ok(f)) if dump_groups(&f) == groups_tok(&Some(g.clone())) => "ok".to_string(),
+                Ok(Ok(_)) => "ok-but-reload-differs".to_string(),
+                _ => "ok-but-reload-fails".to_string(),
+            }
+        }
+    }
+}
+
+/// three entry points, separated by `||`: `Font::save`, `Font::save_with_options` with the default
+/// options, `Font::save_with_options` with two-space indentation and single quotes
 pub fn observe_save(g: &Groups, dir: &Path) -> String {
     rm_rf(dir);
     let mut font = Font::new();
@@ -269,20 +307,18 @@ pub fn observe_save(g: &Groups, dir: &Path) -> String {
         }
         font.groups.insert(key, v);
     }
-    let r = guarded(|| font.save(dir));
-    let s = match r {
-        Err(_) => "panic".to_string(),
-        Ok(Err(norad::error::FontWriteError::InvalidGroups(_))) => "err InvalidGroups".to_string(),
-        Ok(Err(e)) => format!("err other:{}", format!("{:?}", e).split(|c: char| !c.is_alphanumeric()).next().unwrap_or("?")),
-        Ok(Ok(())) => {
-            // what was written must load again with the same groups
-            match guarded(|| Font::load(dir)) {
-                Ok(Ok(f)) if dump_groups(&f) == groups_tok(&Some(g.clone())) => "ok".to_string(),
-                Ok(Ok(_)) => "ok-but-reload-differs".to_string(),
-                _ => "ok-but-reload-fails".to_string(),
-            }
-        }
-    };
+    let custom = norad::WriteOptions::default().whitespace("  ").quote_char(norad::QuoteChar::Single);
+    let mut segs = Vec::new();
+    for ep in 0..3 {
+        rm_rf(dir);
+        let r = match ep {
+            0 => guarded(|| font.save(dir)),
+            1 => guarded(|| font.save_with_options(dir, &norad::WriteOptions::default())),
+            _ => guarded(|| font.save_with_options(dir, &custom)),
+        };
+        segs.push(save_outcome(r, g, dir));
+    }
+    let s = segs.join(" || ");
     rm_rf(dir);
     s
 }
@@ -454,6 +490,7 @@ fn exhaustive(out: &mut dyn Write, dir: &Path, mg: usize, mp: usize, fmts: &[u32
     subsets(n, mg, &mut |s| group_sets.push(s.to_vec()));
     let mut pair_sets: Vec<Vec<usize>> = Vec::new();
     subsets(pairs.len(), mp, &mut |s| pair_sets.push(s.to_vec()));
+    let mut count = 0usize;
     for gs in &group_sets {
         if gs.is_empty() {
             continue;
@@ -484,7 +521,10 @@ fn exhaustive(out: &mut dyn Write, dir: &Path, mg: usize, mp: usize, fmts: &[u32
                         glyphs: glyphs.clone(),
                         extra: BTreeSet::new(),
                     };
-                    emit_load(out, &c, dir);
+                    // the exhaustive part exercises all three entry points on every third case
+                    count += 1;
+                    let obs = observe_load_eps(&c, dir, count % 3 == 0);
+                    writeln!(out, "{} => {}", c.tokens(), obs).unwrap();
                 }
             }
         }
